@@ -476,6 +476,12 @@ def getitem(ex, st, base, idx, node=None):
         return strings.str_getitem(ex, st, base, idx, node)
     if isinstance(base, VBlob):
         raise Unsupported('indexing a blob')
+    if isinstance(base, VOpaque):
+        ck = concrete_key(idx)
+        if ck is not None:
+            f = z3.Function('opaque_item_%s_%d' % (abs(hash(ck)), st.epoch), ObjSort, ObjSort)
+            return [(st, VOpaque(f(base.t)))]
+        return [(st, VOpaque(name='item'))]
     raise Unsupported('subscript of %r (line %s)' % (base, getattr(node, 'lineno', '?')))
 
 
@@ -577,6 +583,13 @@ def contains(ex, st, container, item):
         return [(st, z3.Contains(container.t, item.t))]
     if isinstance(container, VNone):
         return [(st, Raised('TypeError', note='argument of type NoneType is not iterable'))]
+    if isinstance(container, VOpaque):
+        # membership in an unknown container: an unknown truth value (a function of container, item and epoch)
+        ck = concrete_key(item)
+        f = z3.Function('opaque_contains_%s_%d' % (abs(hash(ck)) if ck is not None else 'sym', st.epoch), ObjSort, z3.BoolSort())
+        if ck is not None:
+            return [(st, f(container.t))]
+        return [(st, z3.Bool(uid('in')))]
     raise Unsupported('`in` on %r' % (container,))
 
 
@@ -926,7 +939,13 @@ def b_isinstance(ex, st, args, kwargs, node):
         r = any(ex.exc_isinstance(v.target[0], n.split(':')[-1].split('.')[-1]) for n in tn)
         return [(st, VBool(r))]
     elif isinstance(v, VOpaque):
-        raise Unsupported('isinstance on opaque value')
+        # an opaque value is an instance of some class we know nothing about; it is NOT one of the builtin
+        # value types (those are modelled by their own shapes)
+        builtin_names = {'int', 'float', 'str', 'tuple', 'list', 'dict', 'bool', 'bytes', 'set'}
+        if all(n in builtin_names for n in tn):
+            return [(st, VBool(False))]
+        b = z3.Bool(uid('isinst'))
+        return [(st, VBool(b))]
     else:
         mine = shape_names.get(v.shape, [])
     return [(st, VBool(any(n in mine for n in tn)))]
@@ -1106,6 +1125,9 @@ def m_sqrt(ex, st, args, kwargs, node):
 
 BUILTINS['floor'] = m_floor      # spec dialect
 BUILTINS['ceil'] = m_ceil
+EXTERNS['errno.ENOENT'] = VInt(2)
+EXTERNS['errno.EEXIST'] = VInt(17)
+EXTERNS['errno.EACCES'] = VInt(13)
 EXTERNS['math.pi'] = VReal(z3.RealVal('3.141592653589793'))
 
 
